@@ -175,6 +175,42 @@ def dom_terms(dom):
     return [[b.t for b in lab.fields[0].items] for lab in dom.fields[0].items]
 
 
+TYPED = dict(ns=(2, "Ns"), cname=(5, "CName"), ptr=(12, "Ptr"), mx=(15, "Mx"), rt=(21, "Rt"), afsdb=(18, "AfsDb"), rp=(17, "Rp"), soa=(6, "Soa"))
+
+
+def value_equal(a, b):
+    """structural equality of two decoded/original values (Domain = Seq of Label = Seq of octets; integers; nested structs)"""
+    if isinstance(a, BV) and isinstance(b, BV):
+        return a.t == b.t if a.t.size() == b.t.size() else z3.BoolVal(False)
+    if isinstance(a, Bool) and isinstance(b, Bool):
+        return a.t == b.t
+    if isinstance(a, Seq) and isinstance(b, Seq):
+        if len(a.items) != len(b.items):
+            return z3.BoolVal(False)
+        return z3.And([value_equal(x, y) for x, y in zip(a.items, b.items)]) if a.items else z3.BoolVal(True)
+    if isinstance(a, Adt) and isinstance(b, Adt):
+        if a.variant != b.variant or len(a.fields) != len(b.fields):
+            return z3.BoolVal(False)
+        return z3.And([value_equal(x, y) for x, y in zip(a.fields, b.fields)]) if a.fields else z3.BoolVal(True)
+    return z3.BoolVal(False)
+
+
+def rdata_names(structs, rd):
+    """(offset of the first name inside the record data, [names in wire order]) of typed record data"""
+    v = rd.variant
+    if v in ("Ns", "CName", "Ptr"):
+        return 0, [rd.fields[0]]
+    if v in ("Mx", "Rt"):
+        return 2, [field(structs, rd.fields[0], "domain")]
+    if v == "AfsDb":
+        return 2, [field(structs, rd.fields[0], "hostname")]
+    if v == "Rp":
+        return 0, [field(structs, rd.fields[0], "mbox"), field(structs, rd.fields[0], "txt")]
+    if v == "Soa":
+        return 0, [field(structs, rd.fields[0], "mname"), field(structs, rd.fields[0], "rname")]
+    return 0, []
+
+
 def mk_named_msg(e, structs, layout, with_edns, sym_flags=False):
     """layout: (question labels, [(section, owner labels, rdlen)]) where labels are tuples of (tag, length): equal tags share the
     same symbolic octets (forcing compression), different tags are independent"""
@@ -187,13 +223,35 @@ def mk_named_msg(e, structs, layout, with_edns, sym_flags=False):
     qlabels, recs = layout
     secs = {0: [], 1: [], 2: []}
     types = []
+    dom = lambda labels: Adt("Domain", None, [Seq([lab(t, n) for t, n in labels])])  # noqa
     for i, (sec, owner, rdlen) in enumerate(recs):
-        ty = z3.BitVec(f"r{i}_type", 16)
-        types.append(ty)
-        rd = [BV(z3.BitVec(f"r{i}_rd{j}", 8)) if (rdlen <= 64 or j < 2) else BV(z3.BitVecVal((j * 7 + 1) & 255, 8)) for j in range(rdlen)]
-        secs[sec].append(build(structs, "RR", domain=Adt("Domain", None, [Seq([lab(t, n) for t, n in owner])]),
+        if isinstance(rdlen, tuple):
+            # typed record data carrying names (which take part in compression): the record type is the matching concrete one
+            kind = rdlen[0]
+            ty = z3.BitVecVal(TYPED[kind][0], 16)
+            u16 = lambda n: BV(z3.BitVec(f"r{i}_{n}", 16))  # noqa
+            u32 = lambda n: BV(z3.BitVec(f"r{i}_{n}", 32))  # noqa
+            if kind in ("ns", "cname", "ptr"):
+                rdata = Adt("RData", TYPED[kind][1], [dom(rdlen[1])])
+            elif kind in ("mx", "rt"):
+                rdata = Adt("RData", TYPED[kind][1], [build(structs, "PrefDomainData", pref=u16("pref"), domain=dom(rdlen[1]))])
+            elif kind == "afsdb":
+                rdata = Adt("RData", "AfsDb", [build(structs, "AFSDBData", subtype=u16("subtype"), hostname=dom(rdlen[1]))])
+            elif kind == "rp":
+                rdata = Adt("RData", "Rp", [build(structs, "RPData", mbox=dom(rdlen[1]), txt=dom(rdlen[2]))])
+            elif kind == "soa":
+                rdata = Adt("RData", "Soa", [build(structs, "SoaData", mname=dom(rdlen[1]), rname=dom(rdlen[2]), serial=u32("serial"), refresh=u32("refresh"),
+                                                   retry=u32("retry"), expire=u32("expire"), minimum=u32("minimum"))])
+            else:
+                raise Unsupported(f"record kind {kind}")
+        else:
+            ty = z3.BitVec(f"r{i}_type", 16)
+            types.append(ty)
+            rd = [BV(z3.BitVec(f"r{i}_rd{j}", 8)) if (rdlen <= 64 or j < 2) else BV(z3.BitVecVal((j * 7 + 1) & 255, 8)) for j in range(rdlen)]
+            rdata = Adt("RData", "Other", [Seq(rd)])
+        secs[sec].append(build(structs, "RR", domain=dom(owner),
                                **{"class": Adt("Class", None, [BV(z3.BitVec(f"r{i}_class", 16))])},
-                               rrtype=Adt("Type", None, [BV(ty)]), ttl=BV(z3.BitVec(f"r{i}_ttl", 32)), rdata=Adt("RData", "Other", [Seq(rd)])))
+                               rrtype=Adt("Type", None, [BV(ty)]), ttl=BV(z3.BitVec(f"r{i}_ttl", 32)), rdata=rdata))
     for ty in types:
         e.assume(z3.And(ty != 41, ty != 6, ty != 2, ty != 5, ty != 12, ty != 15, ty != 17, ty != 18, ty != 21, ty != 35))
     b = (lambda n: Bool(z3.Bool(n))) if sym_flags else (lambda n: Bool(n in ("qr", "ra")))  # noqa
@@ -270,10 +328,7 @@ def roundtrip_obligation(prog, enums, structs, layout, with_edns, sym_flags=Fals
                     recs_ok.append(field(structs, x, "rrtype").fields[0].t == field(structs, y, "rrtype").fields[0].t)
                     recs_ok.append(field(structs, x, "class").fields[0].t == field(structs, y, "class").fields[0].t)
                     rx, ry = field(structs, x, "rdata"), field(structs, y, "rdata")
-                    if ry.variant != "Other" or len(rx.fields[0].items) != len(ry.fields[0].items):
-                        recs_ok.append(z3.BoolVal(False))
-                    else:
-                        recs_ok += [p.t == q.t for p, q in zip(rx.fields[0].items, ry.fields[0].items)]
+                    recs_ok.append(value_equal(rx, ry))
             claims.append(("every record of every section survives the round trip (owner, type, class, TTL, data, order)", z3.And(recs_ok)))
             # independent RFC 1035 decoder: pointers only backwards and below 0x4000, names expand to the originals
             pos = 12
@@ -284,7 +339,27 @@ def roundtrip_obligation(prog, enums, structs, layout, with_edns, sym_flags=Fals
                 for x in field(structs, pkt, sec).items:
                     n_l, pos, okp = ref_decode_name(out, pos)
                     ptr_ok += [z3.BoolVal(okp), names_equal(n_l, dom_terms(field(structs, x, "domain")))]
-                    pos += 10 + len(field(structs, x, "rdata").fields[0].items)
+                    if pos + 10 > len(out):
+                        ptr_ok.append(z3.BoolVal(False))
+                        break
+                    hi, lo = z3.simplify(out[pos + 8].t), z3.simplify(out[pos + 9].t)
+                    if not (z3.is_bv_value(hi) and z3.is_bv_value(lo)):
+                        ptr_ok.append(z3.BoolVal(False))
+                        break
+                    rdlen = (hi.as_long() << 8) | lo.as_long()
+                    rd = field(structs, x, "rdata")
+                    if rd.variant == "Other":
+                        ptr_ok.append(z3.BoolVal(rdlen == len(rd.fields[0].items)))
+                    else:
+                        off, names = rdata_names(structs, rd)
+                        npos = pos + 10 + off
+                        for nm in names:
+                            r_l, npos, okp = ref_decode_name(out, npos)
+                            ptr_ok += [z3.BoolVal(okp), names_equal(r_l, dom_terms(nm))]
+                        if rd.variant == "Soa":
+                            npos += 20
+                        ptr_ok.append(z3.BoolVal(npos == pos + 10 + rdlen))     # RDLENGTH covers exactly the record data
+                    pos += 10 + rdlen
             claims.append(("independent RFC 1035 decoder: compression pointers point backwards below offset 16384 and names expand to the originals", z3.And(ptr_ok)))
         for name, f in claims:
             m = check(ex, pc, f, name)
